@@ -326,3 +326,31 @@ def c18_r5(ctx):
             else:
                 ctx.ok()
     ctx.need(n, "the SystemTime -> timestamp conversion")
+
+
+@rule("C18.R6", floor=1)
+def c18_r6(ctx):
+    """The refresh after a resolution is not optional: in the handler, every way from "no target
+    needs rebuilding" to an Ok result passes through the call that re-reads the targets'
+    states after resolution (it is the only place where a target restored from the cache gets
+    a new (hash, mtime) entry) - whether the rule has dependents, for one, may not decide it."""
+    from r_work import handler_fn, _needs_rebuild_calls, _inline_rebuild_verdict
+    h, hcall, node = handler_fn(ctx)
+    ctx.saw(h)
+    preds = _needs_rebuild_calls(ctx, h)
+    false_edges = set()
+    for p in preds:
+        false_edges |= h.bool_edges_of_call(p, False)
+    if not preds:
+        inl = _inline_rebuild_verdict(ctx, h)
+        ctx.need(inl, "the needs-rebuild verdict in the handler")
+        false_edges = inl["false"]
+    rf = h.calls_to("blob::Blob::get_file_state_vec_after_resolution")
+    ctx.need(rf, "the state refresh after resolution in the handler")
+    ctx.inst("refresh after resolution", rf[0].where)
+    r = h.reach([x for (_, x) in false_edges], avoid_blocks=[c.bb for c in rf])
+    oks = [(bb, idx) for (bb, idx, rv, pl) in h.constructs("std::result::Result", "Ok") if pl["local"] == 0 and bb in r]
+    if oks:
+        ctx.viol((h.id, "refresh-after-resolution-skipped"), "a rule that needs no rebuilding can finish without its targets' states being read again after the resolution: a target that was restored from the cache keeps the table entry of the file it replaced, and the shortcut later returns that file's hash for it", h.where(oks[0][0], oks[0][1]))
+    else:
+        ctx.ok()
